@@ -1,7 +1,7 @@
 #!/bin/bash
 # tools/seeded_eval.sh <PROP> <n> [extra check ids...] : confirm the sub-agent's change in its worktree, then run my checks on /repo with it
 ID="$1"; N="$2"; shift 2
-SRC=/tmp/seeded-out/$ID; WT=/tmp/wt-$ID
+RD=${SEED_ROUND:-}; SRC=/tmp/seeded-out$RD/$ID; WT=/tmp/wt$RD-$ID
 RUN=$SRC/RUN$N.md
 DEMO=$(ls $SRC/demo$N.* 2>/dev/null | head -1)
 DEST=$(grep -oE "cp +$SRC/demo$N[^ ]* +[^ ]+" $RUN | head -1 | awk '{print $NF}')
